@@ -1,6 +1,350 @@
-"""Further generated files: action methods, timing parameters, server tables, raw recordings."""
+"""Further generated files: action methods (Gen/Methods.v), timing parameters (Gen/Params.v),
+server tables and raw recordings (Gen/ServerTables.v, Gen/RecLines_*.v)."""
 from __future__ import annotations
+
+import ast
+import enum
+import inspect
+import os
+import textwrap
+from fractions import Fraction
+
+from .translate import HEADER, cbool, cident, clist, comment, copt, ct
+
+
+# ----------------------------------------------------------------------------- methods
+def _const_str(n):
+    return n.value if isinstance(n, ast.Constant) and isinstance(n.value, str) else None
+
+
+def mexpr_term(node, params):
+    """value expression of a self._put(<const>, <expr>) call"""
+    s = _const_str(node)
+    if s is not None:
+        return f"(MEConst {ct(s)})"
+    if isinstance(node, ast.Name) and node.id in params:
+        return "MEParam"
+    # p.value
+    if isinstance(node, ast.Attribute) and node.attr == "value" and isinstance(node.value, ast.Name) and node.value.id in params:
+        return "MEValueAttr"
+    # "<lit>" if p is None else str(p)
+    if (
+        isinstance(node, ast.IfExp)
+        and _const_str(node.body) is not None
+        and isinstance(node.test, ast.Compare)
+        and isinstance(node.test.left, ast.Name)
+        and node.test.left.id in params
+        and len(node.test.ops) == 1
+        and isinstance(node.test.ops[0], ast.Is)
+        and isinstance(node.test.comparators[0], ast.Constant)
+        and node.test.comparators[0].value is None
+        and isinstance(node.orelse, ast.Call)
+        and isinstance(node.orelse.func, ast.Name)
+        and node.orelse.func.id == "str"
+        and len(node.orelse.args) == 1
+        and isinstance(node.orelse.args[0], ast.Name)
+        and node.orelse.args[0].id == node.test.left.id
+    ):
+        return f"(MENoneOrStr {ct(_const_str(node.body))})"
+    # f"<prefix>{p}<suffix>"
+    if isinstance(node, ast.JoinedStr):
+        pre, suf, seen = "", "", False
+        for v in node.values:
+            if isinstance(v, ast.Constant) and isinstance(v.value, str):
+                if seen:
+                    suf += v.value
+                else:
+                    pre += v.value
+            elif isinstance(v, ast.FormattedValue) and not seen and isinstance(v.value, ast.Name) and v.value.id in params and v.conversion == -1 and v.format_spec is None:
+                seen = True
+            else:
+                return None
+        if seen:
+            return f"(MEFmt {ct(pre)} {ct(suf)})"
+    return None
+
+
+def is_docstring(st):
+    return isinstance(st, ast.Expr) and isinstance(st.value, ast.Constant) and isinstance(st.value.value, str)
+
+
+def method_body_term(fn, volspecs):
+    try:
+        tree = ast.parse(textwrap.dedent(inspect.getsource(fn)))
+    except Exception:
+        return "MOpaque"
+    fdef = tree.body[0]
+    if not isinstance(fdef, ast.FunctionDef):
+        return "MOpaque"
+    args = [a.arg for a in fdef.args.args]
+    if not args or args[0] != "self" or fdef.args.vararg or fdef.args.kwarg or fdef.args.kwonlyargs:
+        return "MOpaque"
+    params = args[1:]
+    if len(params) > 1:
+        return "MOpaque"
+    body = [st for st in fdef.body if not is_docstring(st)]
+    guard = None
+    # optional guard:  if len(p) != k: raise ...
+    if (
+        len(body) == 2
+        and isinstance(body[0], ast.If)
+        and not body[0].orelse
+        and len(body[0].body) == 1
+        and isinstance(body[0].body[0], ast.Raise)
+        and isinstance(body[0].test, ast.Compare)
+        and len(body[0].test.ops) == 1
+        and isinstance(body[0].test.ops[0], ast.NotEq)
+        and isinstance(body[0].test.left, ast.Call)
+        and isinstance(body[0].test.left.func, ast.Name)
+        and body[0].test.left.func.id == "len"
+        and len(body[0].test.left.args) == 1
+        and isinstance(body[0].test.left.args[0], ast.Name)
+        and body[0].test.left.args[0].id in params
+        and isinstance(body[0].test.comparators[0], ast.Constant)
+        and isinstance(body[0].test.comparators[0].value, int)
+    ):
+        guard = body[0].test.comparators[0].value
+        body = body[1:]
+    if len(body) != 1 or not isinstance(body[0], ast.Expr) or not isinstance(body[0].value, ast.Call):
+        return "MOpaque"
+    call = body[0].value
+    # self._put("<F>", <expr>)
+    if (
+        isinstance(call.func, ast.Attribute)
+        and call.func.attr == "_put"
+        and isinstance(call.func.value, ast.Name)
+        and call.func.value.id == "self"
+        and len(call.args) == 2
+        and not call.keywords
+        and _const_str(call.args[0]) is not None
+    ):
+        e = mexpr_term(call.args[1], params)
+        if e is None:
+            return "MOpaque"
+        return f"(MPut {ct(_const_str(call.args[0]))} {e} {copt(guard, lambda k: f'{k}%nat')})"
+    # do_vol_up(self, step_size[=step_size], function="VOL")
+    if isinstance(call.func, ast.Name) and call.func.id in volspecs and guard is None and len(params) == 1:
+        pos = list(call.args)
+        kw = {k.arg: k.value for k in call.keywords}
+        names = ["self", "step_size", "function"]
+        bound = {}
+        for n, a in zip(names, pos):
+            bound[n] = a
+        for k, v in kw.items():
+            if k in bound or k not in names:
+                return "MOpaque"
+            bound[k] = v
+        if set(bound) != set(names):
+            return "MOpaque"
+        if not (isinstance(bound["self"], ast.Name) and bound["self"].id == "self"):
+            return "MOpaque"
+        if not (isinstance(bound["step_size"], ast.Name) and bound["step_size"].id == params[0]):
+            return "MOpaque"
+        f = _const_str(bound["function"])
+        if f is None:
+            return "MOpaque"
+        # the global must really be the analysed helper of the same module
+        target = fn.__globals__.get(call.func.id)
+        if target is not volspecs[call.func.id][0]:
+            return "MOpaque"
+        return f"(MVol vs_{cident(call.func.id)} {ct(f)})"
+    return "MOpaque"
+
+
+def volspec_term(fn):
+    """AST of do_vol_up / do_vol_down:
+         value = "<word>"
+         if step_size in [<ints>]:
+             value = "<pre>{}<post>".format(step_size | int(step_size))
+         self._put(function, value)
+    """
+    try:
+        tree = ast.parse(textwrap.dedent(inspect.getsource(fn)))
+    except Exception:
+        return None
+    fdef = tree.body[0]
+    args = [a.arg for a in fdef.args.args]
+    if args != ["self", "step_size", "function"]:
+        return None
+    body = [st for st in fdef.body if not is_docstring(st)]
+    if len(body) != 3:
+        return None
+    a, b, c = body
+    if not (isinstance(a, ast.Assign) and len(a.targets) == 1 and isinstance(a.targets[0], ast.Name) and _const_str(a.value) is not None):
+        return None
+    var = a.targets[0].id
+    word = _const_str(a.value)
+    if not (
+        isinstance(b, ast.If)
+        and not b.orelse
+        and len(b.body) == 1
+        and isinstance(b.test, ast.Compare)
+        and isinstance(b.test.left, ast.Name)
+        and b.test.left.id == "step_size"
+        and len(b.test.ops) == 1
+        and isinstance(b.test.ops[0], ast.In)
+        and isinstance(b.test.comparators[0], (ast.List, ast.Tuple))
+    ):
+        return None
+    steps = []
+    for el in b.test.comparators[0].elts:
+        if isinstance(el, ast.Constant) and isinstance(el.value, int) and not isinstance(el.value, bool):
+            steps.append(el.value)
+        else:
+            return None
+    st = b.body[0]
+    if not (isinstance(st, ast.Assign) and len(st.targets) == 1 and isinstance(st.targets[0], ast.Name) and st.targets[0].id == var):
+        return None
+    v = st.value
+    if not (isinstance(v, ast.Call) and isinstance(v.func, ast.Attribute) and v.func.attr == "format" and _const_str(v.func.value) is not None and len(v.args) == 1 and not v.keywords):
+        return None
+    fmt = _const_str(v.func.value)
+    if fmt.count("{}") != 1 or "{" in fmt.replace("{}", "") or "}" in fmt.replace("{}", ""):
+        return None
+    pre, post = fmt.split("{}")
+    arg = v.args[0]
+    if isinstance(arg, ast.Name) and arg.id == "step_size":
+        as_int = False
+    elif isinstance(arg, ast.Call) and isinstance(arg.func, ast.Name) and arg.func.id == "int" and len(arg.args) == 1 and isinstance(arg.args[0], ast.Name) and arg.args[0].id == "step_size":
+        as_int = True
+    else:
+        return None
+    if not (
+        isinstance(c, ast.Expr)
+        and isinstance(c.value, ast.Call)
+        and isinstance(c.value.func, ast.Attribute)
+        and c.value.func.attr == "_put"
+        and isinstance(c.value.func.value, ast.Name)
+        and c.value.func.value.id == "self"
+        and len(c.value.args) == 2
+        and isinstance(c.value.args[0], ast.Name)
+        and c.value.args[0].id == "function"
+        and isinstance(c.value.args[1], ast.Name)
+        and c.value.args[1].id == var
+    ):
+        return None
+    return "{| vs_word := %s; vs_steps := %s; vs_pre := %s; vs_post := %s; vs_int := %s |}" % (
+        ct(word),
+        clist([f"({k})%Z" for k in steps]),
+        ct(pre),
+        ct(post),
+        cbool(as_int),
+    )
+
+
+def gen_methods(classes, table):
+    from ynca.function import FunctionMixinBase
+    from ynca.subunit import SubunitBase
+    import ynca.subunits.zone as Z
+
+    out = [HEADER, "From Ynca Require Import Model.Methods.\n"]
+    volspecs = {}
+    for name in ("do_vol_up", "do_vol_down"):
+        fn = getattr(Z, name, None)
+        term = volspec_term(fn) if fn is not None else None
+        if term is not None:
+            volspecs[name] = (fn, term)
+            out.append(f"Definition vs_{cident(name)} : volspec := {term}.\n")
+    base = set(dir(SubunitBase))
+    cnames = []
+    for c in classes:
+        items = []
+        for m in sorted(dir(c)):
+            if m.startswith("_") or m in base:
+                continue
+            raw = inspect.getattr_static(c, m)
+            if isinstance(raw, FunctionMixinBase) or isinstance(raw, property):
+                continue
+            fn = getattr(c, m)
+            if not inspect.isfunction(fn):
+                if callable(fn):
+                    items.append(f"({ct(m)}, MOpaque, None)")
+                continue
+            # default of the single parameter, if any
+            sig = inspect.signature(fn)
+            ps = list(sig.parameters.values())[1:]
+            default = "None"
+            if len(ps) == 1 and ps[0].default is not inspect.Parameter.empty:
+                d = ps[0].default
+                if d is None:
+                    default = "(Some DNone)"
+                elif isinstance(d, (int, float)) and not isinstance(d, bool):
+                    fr = Fraction(d)
+                    default = f"(Some (DNum ({fr.numerator})%Z {fr.denominator}%positive {cbool(isinstance(d, float))}))"
+                else:
+                    default = "(Some DOther)"
+            items.append(f"({ct(m)}, {method_body_term(fn, volspecs)}, {default}) {comment(c.__name__ + '.' + m)}")
+        cid = c.id.value if isinstance(c.id, enum.Enum) else str(c.id)
+        out.append(f"Definition methods_{cident(c.__name__)} : list (text * mbody * option mdefault) :=\n  [" + ";\n   ".join(items) + "].\n")
+        cnames.append(f"({ct(cid)}, methods_{cident(c.__name__)})")
+    out.append("Definition all_methods : list (text * list (text * mbody * option mdefault)) :=\n  " + clist(cnames) + ".\n")
+    return "\n".join(out)
+
+
+# ----------------------------------------------------------------------------- params
+def gen_params():
+    """Timing constants: class attributes and the AST of the wait expressions."""
+    import ynca.api as A
+    import ynca.connection as C
+    import ynca.subunit as S
+    import serial.threaded as T
+
+    def micros(x):
+        return int(round(Fraction(str(x)) * 1_000_000))
+
+    out = [HEADER, "Open Scope Z_scope.\n"]
+    P = C.YncaProtocol
+    out.append(f"Definition p_spacing : Z := {micros(P.COMMAND_SPACING)}.      (* COMMAND_SPACING = {P.COMMAND_SPACING} s *)")
+    out.append(f"Definition p_keepalive : Z := {micros(P.KEEP_ALIVE_INTERVAL)}.  (* KEEP_ALIVE_INTERVAL = {P.KEEP_ALIVE_INTERVAL} s *)")
+    out.append(f"Definition p_check_timeout : Z := {micros(A.CONNECTION_CHECK_TIMEOUT)}.  (* CONNECTION_CHECK_TIMEOUT *)")
+
+    # wait expression:  2 + n * (YncaProtocol.COMMAND_SPACING * 5)   in subunit.initialize and api._detect_available_subunits
+    def wait_shape(fn):
+        tree = ast.parse(textwrap.dedent(inspect.getsource(fn)))
+        found = []
+        for node in ast.walk(tree):
+            if isinstance(node, ast.Call) and isinstance(node.func, ast.Attribute) and node.func.attr == "wait" and len(node.args) == 1:
+                e = node.args[0]
+                # 2 + n * (X.COMMAND_SPACING * 5)   (parentheses do not show in the AST)
+                if isinstance(e, ast.BinOp) and isinstance(e.op, ast.Add) and isinstance(e.left, ast.Constant) and isinstance(e.right, ast.BinOp) and isinstance(e.right.op, ast.Mult):
+                    base = e.left.value
+                    r = e.right
+                    n, k = r.left, r.right
+                    if isinstance(n, ast.Name) and isinstance(k, ast.BinOp) and isinstance(k.op, ast.Mult) and isinstance(k.left, ast.Attribute) and k.left.attr == "COMMAND_SPACING" and isinstance(k.right, ast.Constant):
+                        found.append((base, k.right.value))
+                        continue
+                found.append(None)
+        return found
+
+    for nm, fn in (("init", S.SubunitBase.initialize), ("detect", A.YncaApi._detect_available_subunits)):
+        ws = wait_shape(fn)
+        if len(ws) == 1 and ws[0] is not None:
+            base, mult = ws[0]
+            per = Fraction(str(P.COMMAND_SPACING)) * mult
+            out.append(f"Definition p_{nm}_base : Z := {micros(base)}.")
+            out.append(f"Definition p_{nm}_per_cmd : Z := {int(per * 1_000_000)}.")
+            out.append(f"Definition p_{nm}_wait_known : bool := true.")
+        else:
+            out.append(f"Definition p_{nm}_base : Z := 0.\nDefinition p_{nm}_per_cmd : Z := 0.\nDefinition p_{nm}_wait_known : bool := false.")
+
+    # join time-outs: connection_lost's join of the sender, pyserial's stop()
+    def join_consts(fn):
+        tree = ast.parse(textwrap.dedent(inspect.getsource(fn)))
+        res = []
+        for node in ast.walk(tree):
+            if isinstance(node, ast.Call) and isinstance(node.func, ast.Attribute) and node.func.attr == "join":
+                if len(node.args) == 1 and isinstance(node.args[0], ast.Constant):
+                    res.append(node.args[0].value)
+                else:
+                    res.append(None)
+        return res
+
+    jl = join_consts(P.connection_lost)
+    js = join_consts(T.ReaderThread.stop)
+    out.append(f"Definition p_join_sender : Z := {micros(jl[0]) if len(jl) == 1 and jl[0] is not None else -1}.")
+    out.append(f"Definition p_join_reader : Z := {micros(js[0]) if len(js) == 1 and js[0] is not None else -1}.")
+    return "\n".join(out) + "\n"
 
 
 def generate(classes, table, enums, recs):
-    return {}
+    return {"Methods.v": gen_methods(classes, table), "Params.v": gen_params()}
